@@ -167,6 +167,8 @@ def inline_call(caller, bb, callee):
     caller["blocks"].extend(new_blocks)
     caller["blocks"][bb]["term"] = {"k": "goto", "target": bo, "span": t["span"], "inlined": callee["path"]}
     caller.setdefault("inlined", []).append(callee["path"])
+    for k_ in ("_sroa", "_threaded", "_rnt", "_lic", "_lor"):
+        caller.pop(k_, None)            # the body changed: the load-time normalisations get another look at it
     end = len(caller["blocks"])
     _fold_bound_constants(caller, range(bo, end))
     if t.get("dest") is not None and not t["dest"]["proj"] and t.get("target") is not None:
@@ -383,16 +385,50 @@ def _devirtualize(raw, raws):
         t.update({"callee": c["fn"], "callee_args": c.get("fn_args"), "callee_dpath": r["dpath"], "unsafe": bool(r.get("unsafe")), "local": True,
                   "intrinsic": False, "resolved": {"path": r["path"], "dpath": r["dpath"], "kind": "Item", "local": True}, "devirtualized": True})
         n += 1
+    # the same through the Fn* traits: a generic `op: impl FnOnce(A, B) -> R` bound to a named function of this crate, called as `op(a, b)`
+    for blk in raw["blocks"]:
+        t = blk["term"]
+        if t["k"] != "call" or t.get("resolved") or len(t.get("args", [])) != 2 \
+                or t.get("callee") not in ("core::ops::FnMut::call_mut", "core::ops::Fn::call", "core::ops::FnOnce::call_once"):
+            continue
+        a0 = t["args"][0]
+        c = fn_of(a0)
+        if c is None and a0["k"] in ("copy", "move") and not a0["place"]["proj"]:
+            # through one reference (`&mut op` for call_mut)
+            ds = defs.get(a0["place"]["local"], [])
+            if len(ds) == 1 and ds[0] is not None and ds[0]["rv"]["k"] == "ref" and not ds[0]["rv"]["place"]["proj"]:
+                c = fn_of({"k": "move", "place": ds[0]["rv"]["place"]})
+        if c is None:
+            continue
+        want = strip_generics(c["fn"])
+        tgt = [r for r in raws if r["kind"] != "Closure" and strip_generics(r["path"]) == want]
+        tup = t["args"][1]
+        if len(tgt) != 1 or tup["k"] not in ("copy", "move") or tup["place"]["proj"]:
+            continue
+        r = tgt[0]
+        args = []
+        for i in range(r["arg_count"]):
+            ty = r["locals"][1 + i]["ty"]
+            args.append({"k": "move", "place": {"local": tup["place"]["local"], "proj": [{"k": "field", "i": i, "tuple": True, "ty": ty}], "ty": ty}})
+        t["func_indirect"] = t["func"]
+        t["func"] = c
+        t["args"] = args
+        t.pop("trait", None)
+        t.update({"callee": c["fn"], "callee_args": c.get("fn_args"), "callee_dpath": r["dpath"], "unsafe": bool(r.get("unsafe")), "local": True,
+                  "intrinsic": False, "resolved": {"path": r["path"], "dpath": r["dpath"], "kind": "Item", "local": True}, "devirtualized": True})
+        n += 1
     return n
 
 
-def _inline_known_closure_calls(raw, raws, max_sites=4):
+def _inline_known_closure_calls(raw, raws, d=None, counter=None, max_sites=4):
     """After a higher-order helper was inlined (`probe_both(|t| t.find(..))`), its calls of the closure parameter are calls of a closure
     that is created in this very body: `FnMut::call_mut(&mut c, (a, b))` with `c = closure(def)[captures]`.  Splice the closure's body
     in (arguments untupled), so that what the closure does is seen where it is done.  Closures that create closures or that are not
     bound exactly once are left alone.  Returns the number of calls spliced."""
     by_dpath = {r["dpath"]: r for r in raws}
     n = 0
+    spliced = set()
+    closure_of = lambda op: None
     for _round in range(max_sites):
         defs = {}
         for blk in raw["blocks"]:
@@ -436,7 +472,10 @@ def _inline_known_closure_calls(raw, raws, max_sites=4):
             if st is None:
                 continue
             cb = by_dpath.get(st["rv"]["def"])
-            if cb is None or _creates_closure(cb) or cb["dpath"] == raw["dpath"]:
+            if cb is None or cb["dpath"] == raw["dpath"]:
+                continue
+            makes = _creates_closure(cb)
+            if makes and (d is None or counter is None or _nested_closures(raws, cb)):
                 continue
             tup = t["args"][1]
             nparams = cb["arg_count"] - 1
@@ -448,12 +487,42 @@ def _inline_known_closure_calls(raw, raws, max_sites=4):
                 args.append({"k": "move", "place": {"local": tup["place"]["local"], "proj": [{"k": "field", "i": i, "tuple": True, "ty": ty}], "ty": ty}})
             t["args"] = args
             t["closure_call_of"] = cb["dpath"]
+            fb, fl = len(raw["blocks"]), len(raw["locals"])
             inline_call(raw, bb, cb)
+            if makes:
+                _clone_closures(d, raws, raw, cb, fb, fl, counter)      # each spliced copy gets its own copies of the closures it creates
+            spliced.add(cb["dpath"])
             n += 1
             did = True
             break
         if not did:
             break
+    # a closure whose every call was spliced in, and that is handed to nothing else, has no life of its own any more
+    if spliced:
+        still = set()
+        for blk in raw["blocks"]:
+            t = blk["term"]
+            if t["k"] == "call":
+                for a in t.get("args", []):
+                    st = closure_of(a)
+                    if st is not None:
+                        still.add(st["rv"]["def"])
+            for st_ in blk["stmts"]:
+                if st_["k"] == "assign" and st_["rv"]["k"] == "aggregate" and st_["rv"].get("agg") != "closure":
+                    for o in st_["rv"].get("ops", []):
+                        st = closure_of(o)
+                        if st is not None:
+                            still.add(st["rv"]["def"])
+        for dp in spliced - still:
+            cb = by_dpath.get(dp)
+            if cb is None or cb not in raws:
+                continue
+            kids = [x for x in raws if x.get("parent") == dp and x["kind"] == "Closure"]
+            if kids and not all(any(x2.get("cloned_from") == k["dpath"] for x2 in raws) for k in kids):
+                continue
+            for k in kids:
+                raws.remove(k)
+            raws.remove(cb)
     return n
 
 
@@ -652,7 +721,7 @@ def build_view(facts, policy, roles=None, max_rounds=6, protect=()):
                     fb, fl = len(caller["blocks"]), len(caller["locals"])
                     inline_call(caller, bb, by_path[c])
                     _devirtualize(caller, raws)
-                    _inline_known_closure_calls(caller, raws)
+                    _inline_known_closure_calls(caller, raws, d, clone_counter)
                     if sites[c] > 1 and _creates_closure(by_path[c]):
                         _clone_closures(d, raws, caller, by_path[c], fb, fl, clone_counter)
                     done.append((p, c))
